@@ -336,7 +336,10 @@ func (e *Effects) Callers(target *ssa.Function) []*ssa.Function {
 
 var collWrites = map[string]bool{"Set": true, "Remove": true, "Clear": true, "Next": true}
 var collReads = map[string]bool{"Get": true, "Has": true, "Peek": true, "Walk": true, "Iterate": true, "IterateRaw": true,
-	"GetName": true, "GetPrefix": true, "KeyCodec": true, "ValueCodec": true}
+	"GetName": true, "GetPrefix": true, "KeyCodec": true, "ValueCodec": true,
+	// pure helpers of key / range types (no store access)
+	"K1": true, "K2": true, "Descending": true, "Prefix": true, "StartInclusive": true, "StartExclusive": true, "EndInclusive": true, "EndExclusive": true, "RangeValues": true,
+	"Build": true /* SchemaBuilder.Build in NewKeeper: construction, no store access */}
 
 func (s *Site) IsCollWrite() bool {
 	return s.Kind == SColl && !collReads[s.Method]
